@@ -320,6 +320,10 @@ impl Bundle {
                     (Ordering::Less, Ordering::Greater) | (Ordering::Greater, Ordering::Less) => {
                         return None;
                     }
+                    // Both value sums cover the same spends and outputs, so they must agree.
+                    (Ordering::Equal, Ordering::Equal) if self.value_sum != value_sum => {
+                        return None;
+                    }
                     // These cases mean that at least one of the two value sums is correct
                     // and we can use it directly.
                     (spends, outputs) => (spends, outputs),
